@@ -1,20 +1,425 @@
 /-
-C10 — FIFO and status accessors report the radio's true state (statements in progress).
+C10 — FIFO and status accessors report the radio's true state.
+
+Every theorem is about an arbitrary driver state `s` (any shadow attributes, any cached status
+byte) over an arbitrary world (any number of radios, any FIFO contents 0..3 and beyond, any pipes,
+lengths, flags, fault pattern, clock), subject only to
+
+* `s.Wf`         the object's radio exists,
+* `s.rad.RxWf`   payloads in the RX FIFO carry a pipe number 0..5 and are non-empty,
+* `s.rad.Idle`   the radio is not about to transmit: `¬ (TX mode ∧ MAX_RT clear ∧ a sendable payload
+                 at the head of the TX FIFO)` — i.e. `World.tryTransmit` is a no-op.
+
+`RxWf` and `Idle` are not assumptions about particular histories: `C10_reachable` proves that they
+hold for every radio after every SPI transaction, CE edge, arrival and sleep, starting from
+`World.fresh` (any sequence, any bytes on the bus).  Where a theorem needs no idleness it does not
+ask for it: the value an accessor returns always describes the radio **at the start of the
+transaction** (the chip clocks STATUS out while the command is clocked in).
+
+Ground truth (`Nrf.Spec.Link`): functions of the radio's FIFOs / flags only.
 -/
-import NrfModel.Rf24
+import NrfProofs.C10Steps
+import NrfProofs.TrafficInv
 
 namespace Nrf.Props.C10
-open Nrf
+open Nrf Rf24 Spec.Link
 
-/-- FLUSH_RX empties exactly the RX FIFO: the TX FIFO, the latched flags and every configuration
-    register are untouched, and the returned status byte is the one from before the command -/
-theorem C10_flush_rx (r : Radio) :
-    (r.xfer [0xE2]).1 = { r with rxFifo := [] } ∧ (r.xfer [0xE2]).2 = [r.status] := by
-  simp [Radio.xfer, Radio.runCmd, Radio.decodeCmd, zeros]
+/-- `update()`: returns `True`; the cached status byte becomes STATUS of the radio as it was at the
+    start of the transaction, no other attribute changes.  On an idle radio nothing else happens in
+    the world, so the cache is *fresh* (equal to STATUS of the radio as it is now). -/
+theorem C10_update (s : DrvState) (hw : s.Wf) :
+    (exec update s).1 = .ok true ∧
+    (exec update s).2.d = { s.d with status := s.rad.status } ∧
+    (s.rad.Idle → (exec update s).2.rad = s.rad ∧ World.Only s.d.rid s.w (exec update s).2.w ∧
+                  (exec update s).2.Fresh) := by
+  rw [exec_update]
+  refine ⟨rfl, spiStep_shadow s _ _, fun hi => ?_⟩
+  have hx : (s.rad.xfer [0xFF]).1 = s.rad := by rw [Radio.xfer_nop]
+  obtain ⟨hd, hr, ho, _⟩ := spiStep_quiet s 0xFF [] hw (by rw [hx]; exact hi)
+  rw [hx] at hr
+  refine ⟨hr, ho, ?_⟩
+  unfold DrvState.Fresh
+  rw [hr, hd]
 
-/-- FLUSH_TX likewise -/
-theorem C10_flush_tx (r : Radio) :
-    (r.xfer [0xE1]).1 = { r with txFifo := [] } ∧ (r.xfer [0xE1]).2 = [r.status] := by
-  simp [Radio.xfer, Radio.runCmd, Radio.decodeCmd, zeros]
+example : ∃ s : DrvState, s.Wf ∧ s.rad.Idle ∧ s.d.status ≠ s.rad.status :=
+  ⟨{ d := {}, w := World.fresh 1 }, by decide, by decide, by decide⟩
+
+/-- The cached attributes `pipe`, `tx_full`, `irq_dr`, `irq_ds`, `irq_df` on a fresh cache (e.g.
+    right after `update()` on an idle radio, by `C10_update`): the pipe of the head of the RX
+    FIFO or `None`, "the TX FIFO holds 3", and the three latched events.  They make no SPI
+    transaction (the state is returned unchanged). -/
+theorem C10_cached (s : DrvState) (hr : s.rad.RxWf) (hf : s.Fresh) :
+    exec pipe s = (.ok (nextPipe s.rad), s) ∧
+    exec txFull s = (.ok (txFifoFull s.rad), s) ∧
+    exec irqDr s = (.ok (dataReady s.rad), s) ∧
+    exec irqDs s = (.ok (dataSent s.rad), s) ∧
+    exec irqDf s = (.ok (dataFail s.rad), s) := by
+  unfold DrvState.Fresh at hf
+  have hp := Radio.status_pipe s.rad hr
+  refine ⟨?_, ?_, ?_, ?_, ?_⟩
+  · unfold pipe
+    simp only [exec_bind, exec_getD, exec_pure, rxPipeField, hf, hp]
+    unfold nextPipe Radio.rxPNo
+    cases hq : s.rad.rxFifo with
+    | nil => simp
+    | cons e rest =>
+      have := (hr e (by rw [hq]; exact List.mem_cons_self)).1
+      simp [this]
+  · unfold txFull
+    simp only [exec_bind, exec_getD, exec_pure, hf]
+    have := Radio.status_txFull s.rad hr
+    unfold txFifoFull
+    unfold Radio.txFull at this
+    congr 2
+    exact decide_eq_decide.2 (this.trans decide_eq_true_iff)
+  · unfold irqDr dataReady
+    simp only [exec_bind, exec_getD, exec_pure, hf, Radio.status_40 s.rad hr]
+  · unfold irqDs dataSent
+    simp only [exec_bind, exec_getD, exec_pure, hf, Radio.status_20 s.rad hr]
+  · unfold irqDf dataFail
+    simp only [exec_bind, exec_getD, exec_pure, hf, Radio.status_10 s.rad hr]
+
+example : ∃ s : DrvState, s.rad.RxWf ∧ s.Fresh ∧ nextPipe s.rad = some 3 ∧ dataReady s.rad = true :=
+  ⟨{ d := { status := 0x46 },
+     w := { radios := [{ rxFifo := [{ pipe := 3, data := [1, 2] }], flags := 0x40 }], busyUntil := [0] } },
+   by decide, by decide, by decide, by decide⟩
+
+/-- `available()`: "is there a payload in the RX FIFO" of the radio at the start of the
+    transaction; on an idle radio that is the current radio and the cache is fresh afterwards. -/
+theorem C10_available (s : DrvState) (hw : s.Wf) (hr : s.rad.RxWf) :
+    (exec available s).1 = .ok (hasPayload s.rad) ∧
+    (s.rad.Idle → (exec available s).2.rad = s.rad ∧ World.Only s.d.rid s.w (exec available s).2.w ∧
+                  (exec available s).2.Fresh) := by
+  have hu := C10_update s hw
+  unfold available
+  simp only [exec_bind]
+  rw [exec_update] at hu ⊢
+  simp only [exec_getD, exec_pure]
+  refine ⟨?_, hu.2.2⟩
+  simp only [rxPipeField, spiStep_status, Radio.status_pipe s.rad hr]
+  unfold hasPayload
+  congr 1
+  have := Radio.rxPNo_lt_six s.rad hr
+  cases hq : s.rad.rxFifo with
+  | nil => simp [Radio.rxPNo, hq]
+  | cons e t =>
+    have h6 := this.2 (by rw [hq]; exact List.cons_ne_nil _ _)
+    simp [h6]
+
+example : ∃ s : DrvState, s.Wf ∧ s.rad.RxWf ∧ s.rad.Idle ∧ hasPayload s.rad = true :=
+  ⟨{ d := {}, w := { radios := [{ rxFifo := [{ pipe := 3, data := [1, 2] }] }], busyUntil := [0] } },
+   by decide, by decide, by decide, by decide⟩
+
+/-- `any()`: the length of the next payload (0 if none) of the radio at the start of the
+    transaction.  In dynamic mode (`_features & 4`, the EN_DPL shadow) this is the byte
+    R_RX_PL_WID returns; in static mode it is the shadow length of the head payload's pipe, which
+    equals the payload's length whenever that payload was received under the RX_PW the shadow
+    mirrors (`hlen`; `C10_static_len` shows reception establishes it). -/
+theorem C10_any (s : DrvState) (hw : s.Wf) (hr : s.rad.RxWf)
+    (hlen : s.d.features &&& 4 = 0 → ∀ e rest, s.rad.rxFifo = e :: rest → s.d.plLen.getD e.pipe 0 = e.data.length) :
+    (exec any s).1 = .ok (nextLen s.rad) ∧
+    (s.rad.Idle → (exec any s).2.rad = s.rad ∧ World.Only s.d.rid s.w (exec any s).2.w ∧ (exec any s).2.Fresh) := by
+  rw [exec_any]
+  refine ⟨?_, fun hi => ?_⟩
+  · simp only
+    congr 1
+    exact anyResult_spec s hr hlen
+  · have hx : (s.rad.xfer [0x60, 0]).1 = s.rad := by rw [Radio.xfer_plWid]
+    obtain ⟨hd, hr', ho, _⟩ := spiStep_quiet s 0x60 [0] hw (by rw [hx]; exact hi)
+    rw [hx] at hr'
+    refine ⟨hr', ho, ?_⟩
+    unfold DrvState.Fresh
+    rw [hr', hd]
+
+example : ∃ s : DrvState, s.Wf ∧ s.rad.RxWf ∧ nextLen s.rad = 2 ∧
+    (s.d.features &&& 4 = 0 → ∀ e rest, s.rad.rxFifo = e :: rest → s.d.plLen.getD e.pipe 0 = e.data.length) :=
+  ⟨{ d := {}, w := { radios := [{ rxFifo := [{ pipe := 3, data := [1, 2] }] }], busyUntil := [0] } },
+   by decide, by decide, by decide, fun h => absurd h (by decide)⟩
+
+/-- `fifo(about_tx, check_empty)` for all six argument combinations: the documented answer about
+    the occupancy of the chosen FIFO (any occupancy, not only 0..3) of the radio at the start of
+    the transaction (booleans as 0/1). -/
+theorem C10_fifo (aboutTx : Bool) (checkEmpty : Option Bool) (s : DrvState) (hw : s.Wf) :
+    (exec (fifo aboutTx checkEmpty) s).1 = .ok (fifoAnswer (fifoOf s.rad aboutTx) checkEmpty) ∧
+    (s.rad.Idle → (exec (fifo aboutTx checkEmpty) s).2.rad = s.rad ∧
+                  World.Only s.d.rid s.w (exec (fifo aboutTx checkEmpty) s).2.w ∧
+                  (exec (fifo aboutTx checkEmpty) s).2.Fresh) := by
+  rw [exec_fifo]
+  refine ⟨rfl, fun hi => ?_⟩
+  have hx : (s.rad.xfer [0x17, 0]).1 = s.rad := by rw [Radio.xfer_rreg _ _ (by decide)]
+  obtain ⟨hd, hr', ho, _⟩ := spiStep_quiet s 0x17 [0] hw (by rw [hx]; exact hi)
+  rw [hx] at hr'
+  refine ⟨hr', ho, ?_⟩
+  unfold DrvState.Fresh
+  rw [hr', hd]
+
+example : fifoAnswer 3 none = 2 ∧ fifoAnswer 0 none = 1 ∧ fifoAnswer 2 none = 0 ∧ fifoAnswer 3 (some false) = 1 := by decide
+
+/-- `last_tx_arc`: ARC_CNT of the radio — the number of retransmissions of the last packet
+    (`C02_cycle_*` show a transmit cycle with `n` attempts leaves ARC_CNT = `n - 1 ≤ 15`). -/
+theorem C10_last_tx_arc (s : DrvState) (hw : s.Wf) (ha : s.rad.arcCnt ≤ 15) :
+    (exec lastTxArc s).1 = .ok s.rad.arcCnt ∧
+    (s.rad.Idle → (exec lastTxArc s).2.rad = s.rad ∧ World.Only s.d.rid s.w (exec lastTxArc s).2.w) := by
+  rw [exec_lastTxArc]
+  refine ⟨by simp only [observeTx_arc _ ha], fun hi => ?_⟩
+  have hx : (s.rad.xfer [8, 0]).1 = s.rad := by rw [Radio.xfer_rreg _ _ (by decide)]
+  obtain ⟨_, hr', ho, _⟩ := spiStep_quiet s 8 [0] hw (by rw [hx]; exact hi)
+  rw [hx] at hr'
+  exact ⟨hr', ho⟩
+
+example : ∃ s : DrvState, s.Wf ∧ s.rad.arcCnt = 7 ∧ s.rad.Idle :=
+  ⟨{ d := {}, w := { radios := [{ arcCnt := 7 }], busyUntil := [0] } }, by decide, by decide, by decide⟩
+
+/-- `read()` with a payload waiting, on an idle radio: returns exactly the head payload; the radio
+    afterwards is the radio before with exactly that payload popped and exactly RX_DR cleared
+    (TX_DS, MAX_RT, the TX FIFO, every register and every other payload are untouched — the record
+    update says so; `lastByte` is the model's memory of the last byte clocked out); nothing else in
+    the world changes; the cached status byte shows the *next* payload's pipe. -/
+theorem C10_read (s : DrvState) (hw : s.Wf) (hr : s.rad.RxWf) (hi : s.rad.Idle)
+    (e : RxEntry) (rest : List RxEntry) (hf : s.rad.rxFifo = e :: rest)
+    (hlen : s.d.features &&& 4 = 0 → s.d.plLen.getD e.pipe 0 = e.data.length) :
+    (exec (Rf24.read none) s).1 = .ok (some e.data) ∧
+    (exec (Rf24.read none) s).2.rad =
+      { s.rad with rxFifo := rest, flags := s.rad.flags &&& 0x30, lastByte := e.data.getLastD s.rad.lastByte } ∧
+    dataReady (exec (Rf24.read none) s).2.rad = false ∧
+    dataSent (exec (Rf24.read none) s).2.rad = dataSent s.rad ∧
+    dataFail (exec (Rf24.read none) s).2.rad = dataFail s.rad ∧
+    World.Only s.d.rid s.w (exec (Rf24.read none) s).2.w ∧
+    (exec (Rf24.read none) s).2.d = { s.d with status := ({ s.rad with rxFifo := rest } : Radio).status } :=
+  read_head_spec s hw hr hi e rest hf hlen
+
+example : ∃ (s : DrvState) (e : RxEntry) (rest : List RxEntry), s.Wf ∧ s.rad.RxWf ∧ s.rad.Idle ∧
+    s.rad.rxFifo = e :: rest ∧ rest ≠ [] ∧ s.rad.txFifo ≠ [] ∧ s.rad.flags = 0x70 ∧
+    (s.d.features &&& 4 = 0 → s.d.plLen.getD e.pipe 0 = e.data.length) :=
+  ⟨{ d := {}, w := { radios := [{ rxFifo := [{ pipe := 3, data := [1, 2] }, { pipe := 0, data := [9] }],
+                                  txFifo := [{ kind := .payload, data := [5], pid := some 2 }],
+                                  flags := 0x70, ce := true, config := 0x0E }], busyUntil := [0] } },
+   _, _, by decide, by decide, by decide, rfl, by decide, by decide, by decide, by decide⟩
+
+/-- `read()` on an empty RX FIFO: returns `None`; one transaction (R_RX_PL_WID) that changes
+    nothing in the radio or the world; the cached status byte is refreshed. -/
+theorem C10_read_empty (s : DrvState) (hw : s.Wf) (hi : s.rad.Idle) (hf : s.rad.rxFifo = []) :
+    (exec (Rf24.read none) s).1 = .ok none ∧
+    (exec (Rf24.read none) s).2.rad = s.rad ∧
+    World.Only s.d.rid s.w (exec (Rf24.read none) s).2.w ∧
+    (exec (Rf24.read none) s).2.d = { s.d with status := s.rad.status } := by
+  have hr : s.rad.RxWf := by intro e he; rw [hf] at he; cases he
+  have hany : anyResult (s.spiStep [0x60, 0]).d s.rad.headLen = 0 := by
+    rw [anyResult_spec s hr (fun _ e' rest' h' => by rw [hf] at h'; cases h')]
+    simp [nextLen, hf]
+  rw [exec_read_zero s hany]
+  have hx1 : (s.rad.xfer [0x60, 0]).1 = s.rad := by rw [Radio.xfer_plWid]
+  obtain ⟨hd1, hr1, ho1, _⟩ := spiStep_quiet s 0x60 [0] hw (by rw [hx1]; exact hi)
+  rw [hx1] at hr1
+  exact ⟨rfl, hr1, ho1, hd1⟩
+
+example : ∃ s : DrvState, s.Wf ∧ s.rad.Idle ∧ s.rad.rxFifo = [] :=
+  ⟨{ d := {}, w := World.fresh 2 }, by decide, by decide, rfl⟩
+
+/-- `clear_status_flags(a, b, c)`: exactly the requested latched events are cleared — the radio
+    afterwards is the radio before with `flags` masked, nothing else in it or in the world changes —
+    provided the radio is idle *after* the write.  (Clearing MAX_RT while CE is high in TX mode with
+    the failed payload still queued is not idle: the chip retransmits at once — that is `resend()`,
+    C02.)  `C10_clear_idle` lists when the side condition holds. -/
+theorem C10_clear (a b c : Bool) (s : DrvState) (hw : s.Wf)
+    (hi : Radio.Idle { s.rad with flags := s.rad.flags &&& (0x70 ^^^ clearMask a b c) }) :
+    (exec (clearStatusFlags a b c) s).1 = .ok () ∧
+    (exec (clearStatusFlags a b c) s).2.rad = { s.rad with flags := s.rad.flags &&& (0x70 ^^^ clearMask a b c) } ∧
+    dataReady (exec (clearStatusFlags a b c) s).2.rad = clearedFlag (dataReady s.rad) a ∧
+    dataSent (exec (clearStatusFlags a b c) s).2.rad = clearedFlag (dataSent s.rad) b ∧
+    dataFail (exec (clearStatusFlags a b c) s).2.rad = clearedFlag (dataFail s.rad) c ∧
+    World.Only s.d.rid s.w (exec (clearStatusFlags a b c) s).2.w ∧
+    (exec (clearStatusFlags a b c) s).2.d = { s.d with status := s.rad.status } := by
+  rw [exec_clearStatusFlags]
+  have hx : (s.rad.xfer [0x27, clearMask a b c]).1 = { s.rad with flags := s.rad.flags &&& (0x70 ^^^ clearMask a b c) } := by
+    rw [show (0x27 : Nat) = 0x20 ||| 7 from rfl, Radio.xfer_wreg _ 7 _ (by decide), Radio.writeReg_status,
+      Radio.clearMask_70]
+  obtain ⟨hd, hr, ho, _⟩ := spiStep_quiet s 0x27 [clearMask a b c] hw (by rw [hx]; exact hi)
+  rw [hx] at hr
+  have hsp := Radio.clear_flags_spec s.rad.flags a b c
+  refine ⟨rfl, hr, ?_, ?_, ?_, ho, hd⟩
+  · rw [hr]; exact hsp.1
+  · rw [hr]; exact hsp.2.1
+  · rw [hr]; exact hsp.2.2
+
+/-- the side condition of `C10_clear` holds on an idle radio whenever MAX_RT is not being cleared,
+    or was not latched, or CE is low, or the TX FIFO is empty, or the radio is not a powered-up PTX -/
+theorem C10_clear_idle (a b c : Bool) (r : Radio) (hi : r.Idle)
+    (h : c = false ∨ r.flags &&& 0x10 = 0 ∨ r.ce = false ∨ r.txFifo = [] ∨ r.primRx = true ∨ r.pwrUp = false) :
+    Radio.Idle { r with flags := r.flags &&& (0x70 ^^^ clearMask a b c) } := by
+  rcases h with h | h | h | h | h | h
+  · unfold Radio.Idle; rw [← hi]
+    refine Radio.txReady_congr _ _ rfl rfl ?_ rfl
+    subst h
+    show r.flags &&& (0x70 ^^^ clearMask a b false) &&& 0x10 = r.flags &&& 0x10
+    rw [Nat.and_assoc]
+    cases a <;> cases b <;> rfl
+  · unfold Radio.Idle; rw [← hi]
+    refine Radio.txReady_congr _ _ rfl rfl ?_ rfl
+    show r.flags &&& (0x70 ^^^ clearMask a b c) &&& 0x10 = r.flags &&& 0x10
+    rw [Nat.and_assoc, h]
+    cases a <;> cases b <;> cases c <;> simp [clearMask, b2n, h]
+  · exact Radio.idle_of_ce _ h
+  · exact Radio.idle_of_empty _ h
+  · exact Radio.idle_of_primRx _ h
+  · exact Radio.idle_of_pwrDown _ h
+
+example : ∃ s : DrvState, s.Wf ∧ s.rad.flags = 0x70 ∧
+    Radio.Idle { s.rad with flags := s.rad.flags &&& (0x70 ^^^ clearMask true false true) } :=
+  ⟨{ d := {}, w := { radios := [{ flags := 0x70, txFifo := [{ kind := .payload, data := [5] }] }], busyUntil := [0] } },
+   by decide, rfl, by decide⟩
+
+/-- `flush_rx()` on an idle radio empties exactly the RX FIFO: TX FIFO, flags, registers, the rest
+    of the world are untouched; the cached status byte is the one from before the command. -/
+theorem C10_flush_rx (s : DrvState) (hw : s.Wf) (hi : s.rad.Idle) :
+    (exec flushRx s).1 = .ok () ∧
+    (exec flushRx s).2.rad = { s.rad with rxFifo := [] } ∧
+    World.Only s.d.rid s.w (exec flushRx s).2.w ∧
+    (exec flushRx s).2.d = { s.d with status := s.rad.status } := by
+  rw [exec_flushRx]
+  have hx : (s.rad.xfer [0xE2]).1 = { s.rad with rxFifo := [] } := by rw [Radio.xfer_flushRx]
+  have hi' : Radio.Idle { s.rad with rxFifo := [] } := by
+    unfold Radio.Idle; rw [← hi]; exact Radio.txReady_congr _ _ rfl rfl rfl rfl
+  obtain ⟨hd, hr, ho, _⟩ := spiStep_quiet s 0xE2 [] hw (by rw [hx]; exact hi')
+  rw [hx] at hr
+  exact ⟨rfl, hr, ho, hd⟩
+
+/-- `flush_tx()` — on any radio, idle or not (an empty TX FIFO cannot transmit) — empties exactly
+    the TX FIFO. -/
+theorem C10_flush_tx (s : DrvState) (hw : s.Wf) :
+    (exec flushTx s).1 = .ok () ∧
+    (exec flushTx s).2.rad = { s.rad with txFifo := [] } ∧
+    World.Only s.d.rid s.w (exec flushTx s).2.w ∧
+    (exec flushTx s).2.d = { s.d with status := s.rad.status } := by
+  rw [exec_flushTx]
+  have hx : (s.rad.xfer [0xE1]).1 = { s.rad with txFifo := [] } := by rw [Radio.xfer_flushTx]
+  obtain ⟨hd, hr, ho, _⟩ := spiStep_quiet s 0xE1 [] hw (by rw [hx]; exact Radio.idle_of_empty _ rfl)
+  rw [hx] at hr
+  exact ⟨rfl, hr, ho, hd⟩
+
+example : ∃ s : DrvState, s.Wf ∧ s.rad.Idle ∧ s.rad.rxFifo.length = 3 ∧ s.rad.txFifo.length = 3 :=
+  ⟨{ d := {}, w := { radios := [{ rxFifo := [⟨0, [1]⟩, ⟨1, [2]⟩, ⟨5, [3]⟩],
+                                  txFifo := [⟨.payload, [1], none⟩, ⟨.payloadNoAck, [2], none⟩, ⟨.ackFor 1, [3], none⟩] }],
+                     busyUntil := [0] } }, by decide, by decide, rfl, rfl⟩
+
+/-- `interrupt_config(a, b, c)` on an idle radio programs CONFIG bits 6..4 so that the IRQ pin is
+    asserted **iff an enabled event is latched** — for every state of the three flags — leaves CONFIG
+    bits 3..0 (CRC, power, role), every other register, FIFOs and flags alone, logs no violation,
+    and the `_config` shadow equals the register. -/
+theorem C10_irq (a b c : Bool) (s : DrvState) (hw : s.Wf) (hi : s.rad.Idle) :
+    (exec (interruptConfig a b c) s).1 = .ok () ∧
+    (exec (interruptConfig a b c) s).2.rad = { s.rad with config := irqConfig s.rad.config a b c } ∧
+    (exec (interruptConfig a b c) s).2.rad.irqLine = irqExpected a b c (exec (interruptConfig a b c) s).2.rad ∧
+    (exec (interruptConfig a b c) s).2.rad.config &&& 0x0F = s.rad.config &&& 0x0F ∧
+    (exec (interruptConfig a b c) s).2.d.config = (exec (interruptConfig a b c) s).2.rad.config ∧
+    World.Only s.d.rid s.w (exec (interruptConfig a b c) s).2.w := by
+  rw [exec_interruptConfig]
+  obtain ⟨hle, h7f, h0f, h70, hb1, hb2⟩ := irqConfig_facts s.rad.config a b c
+  -- R_REGISTER CONFIG
+  have hx1 : (s.rad.xfer [0, 0]).1 = s.rad := by rw [Radio.xfer_rreg _ _ (by decide)]
+  obtain ⟨hd1, hr1, ho1, hw1⟩ := spiStep_quiet s 0 [0] hw (by rw [hx1]; exact hi)
+  rw [hx1] at hr1
+  generalize s.spiStep [0, 0] = s1 at *
+  have hrid1 : s1.d.rid = s.d.rid := by rw [hd1]
+  -- shadow update
+  generalize hs2 : (s1.modShadow fun d => { d with config := irqConfig s.rad.config a b c }) = s2
+  have hr2 : s2.rad = s.rad := by rw [← hs2, ← hr1]; rfl
+  have hw2 : s2.Wf := by rw [← hs2]; exact (modShadow_wf _ _ rfl).2 hw1
+  have hrid2 : s2.d.rid = s.d.rid := by rw [← hs2, ← hrid1]; rfl
+  have hwd2 : s2.w = s1.w := by rw [← hs2]; rfl
+  -- W_REGISTER CONFIG
+  have hx3 : (s2.rad.xfer [0x20, irqConfig s.rad.config a b c]).1 = { s.rad with config := irqConfig s.rad.config a b c } := by
+    rw [show (0x20 : Nat) = 0x20 ||| 0 from rfl, Radio.xfer_wreg _ 0 _ (by decide), hr2]
+    unfold Radio.writeReg
+    simp only [List.headD_cons, h7f, Radio.reservedLog, ↓reduceIte, List.append_nil]
+    have : ¬ (s.rad.ce = true ∧ irqConfig s.rad.config a b c &&& 1 ≠ s.rad.config &&& 1) := fun h => h.2 hb1
+    simp only [this, ↓reduceIte, List.append_nil]
+  have hi3 : Radio.Idle { s.rad with config := irqConfig s.rad.config a b c } := by
+    unfold Radio.Idle; rw [← hi]
+    exact Radio.txReady_congr' _ _ hb1 hb2 rfl rfl rfl
+  obtain ⟨hd3, hr3, ho3, _⟩ := spiStep_quiet s2 0x20 [irqConfig s.rad.config a b c] hw2 (by rw [hx3]; exact hi3)
+  rw [hx3] at hr3
+  refine ⟨rfl, hr3, ?_, ?_, ?_, ?_⟩
+  · rw [hr3]
+    unfold Radio.irqLine irqExpected dataReady dataSent dataFail
+    simp only [h70]
+    have ht := irqLine_tbl ⟨s.rad.flags % 128, Nat.mod_lt _ (by decide)⟩ a b c
+    simp only at ht
+    have e70 := and_mask_mod s.rad.flags 0x70 7 (by decide)
+    have e40 := and_mask_mod s.rad.flags 0x40 7 (by decide)
+    have e20 := and_mask_mod s.rad.flags 0x20 7 (by decide)
+    have e10 := and_mask_mod s.rad.flags 0x10 7 (by decide)
+    simp only [Nat.reducePow] at e70 e40 e20 e10
+    rw [e70, e40, e20, e10]
+    exact ht
+  · rw [hr3]; exact h0f
+  · rw [hr3, hd3, ← hs2]; rfl
+  · rw [hrid2] at ho3
+    rw [hwd2] at ho3
+    exact ho1.trans ho3
+
+example : ∃ s : DrvState, s.Wf ∧ s.rad.Idle ∧ s.rad.flags = 0x50 ∧ s.rad.config = 0x0E :=
+  ⟨{ d := {}, w := { radios := [{ flags := 0x50, config := 0x0E }], busyUntil := [0] } }, by decide, by decide, rfl, rfl⟩
+
+/-- **The side conditions are invariants of all histories.**  In every world reachable from reset
+    radios by any finite sequence of SPI transactions (any bytes, on any radio), CE edges, arrivals
+    (`inject`), sleeps and changes of the fault pattern — hence after any sequence of calls of any
+    driver methods on any number of objects, interleaved with any traffic — every radio satisfies
+    `RxWf`, is `Idle`, holds at most 3 payloads per FIFO and has ARC_CNT ≤ 15.  (`World.Step`,
+    `World.Reachable` are defined in `NrfProofs/TrafficInv.lean`.) -/
+theorem C10_reachable (w : World) (h : World.Reachable w) (j : Nat) (hj : j < w.radios.length) :
+    (w.radio j).RxWf ∧ (w.radio j).Idle ∧ (w.radio j).rxFifo.length ≤ 3 ∧ (w.radio j).txFifo.length ≤ 3 ∧
+    (w.radio j).arcCnt ≤ 15 := by
+  have hg := h.good
+  have hs := hg.1 j hj
+  exact ⟨hs.rx, hg.2 j hj, hs.rxLen, hs.txLen, hs.arc⟩
+
+example : ∃ w : World, World.Reachable w ∧ w.radios.length = 2 ∧ (w.radio 0).ce = true :=
+  ⟨_, .step (.fresh 2 true) (.setCE _ 0 true (by decide)), by decide, by decide⟩
+
+/-- the driver's three primitives (`_spi.write_readinto`, `ce_pin.value = v`, `time.sleep`) are
+    steps: every method of `Rf24` — a composition of these and of shadow updates — keeps the world
+    reachable -/
+theorem C10_reachable_drv (s : DrvState) (hw : s.Wf) (h : World.Reachable s.w) :
+    (∀ out, World.Reachable (exec (xfer out) s).2.w) ∧ (∀ v, World.Reachable (exec (setCE v) s).2.w) ∧
+    (∀ n, World.Reachable (exec (sleepNs n) s).2.w) ∧ (∀ f, World.Reachable (exec (modD f) s).2.w) :=
+  ⟨fun out => by rw [exec_xfer]; exact .step h (.spi _ _ out hw),
+   fun v => by rw [exec_setCE]; exact .step h (.setCE _ _ v hw),
+   fun n => by rw [exec_sleepNs]; exact .step h (.sleep _ n),
+   fun f => by rw [exec_modD]; exact h⟩
+
+example : ∃ s : DrvState, s.Wf ∧ World.Reachable s.w := ⟨{ d := {}, w := World.fresh 1 }, by decide, .fresh 1 true⟩
+
+/-- The hypothesis `hlen` of `C10_any` / `C10_read` in static mode is an invariant of reception: on
+    a radio with dynamic payloads off (EN_DPL clear) whose RX_PW registers equal the `_pl_len`
+    shadows, every packet the radio accepts is stored with the length the shadow of its pipe says
+    (rule 11 of the air model: a static pipe accepts only packets of exactly RX_PW bytes). -/
+theorem C10_static_len (d : Rf24) (r : Radio) (k : Packet) (hst : r.feature &&& 4 = 0)
+    (hsh : ∀ p, p ≤ 5 → d.plLen.getD p 0 = r.rxPw.getD p 0)
+    (hinv : ∀ e ∈ r.rxFifo, d.plLen.getD e.pipe 0 = e.data.length) :
+    ∀ e ∈ (r.receive k).1.rxFifo, d.plLen.getD e.pipe 0 = e.data.length := by
+  rcases Radio.receive_rxFifo r k with h | ⟨p, hp, h⟩
+  · rw [h]; exact hinv
+  · rw [h]
+    intro e he
+    rcases List.mem_append.1 he with he | he
+    · exact hinv e he
+    · simp only [List.mem_cons, List.not_mem_nil, or_false] at he
+      subst he
+      have hp5 := Radio.listensTo_le r k p hp
+      have hrule := ((Radio.listensTo_eq_some r k p).1 hp).2.2
+      unfold Radio.lenRule Radio.dplOn at hrule
+      simp only [hst, ne_eq, not_true_eq_false, decide_false, Bool.false_and, Bool.and_false, Bool.and_eq_true, beq_iff_eq] at hrule
+      obtain ⟨hdpl, hl⟩ := hrule
+      rw [← hdpl] at hl
+      simp only [Bool.false_eq_true, ↓reduceIte, Bool.and_eq_true, beq_iff_eq] at hl
+      show d.plLen.getD p 0 = k.data.length
+      rw [hsh p hp5, hl.1]
+
+example : ∃ (d : Rf24) (r : Radio), r.feature &&& 4 = 0 ∧ (∀ p, p ≤ 5 → d.plLen.getD p 0 = r.rxPw.getD p 0) :=
+  ⟨{ plLen := [4, 4, 4, 4, 4, 4] }, { rxPw := [4, 4, 4, 4, 4, 4] }, by decide, by
+    intro p hp
+    have : p = 0 ∨ p = 1 ∨ p = 2 ∨ p = 3 ∨ p = 4 ∨ p = 5 := by omega
+    rcases this with h | h | h | h | h | h <;> subst h <;> rfl⟩
 
 end Nrf.Props.C10
